@@ -46,11 +46,13 @@ CONSTANTS
     Skew,          \* cfg.SkewSeconds: half width of the timestamp window, seconds
     NonceTTL,      \* lifetime of a nonce-cache entry, seconds (see above)
     Sub,           \* clock ticks per second (1, or 2 to expose the Unix() truncation)
-    MaxNow,        \* the clock runs 0..MaxNow ticks
+    Start,         \* the clock runs Start..MaxNow ticks (cfg files cannot hold negative
+    MaxNow,        \*   numbers, so timestamps "in the past" need a clock that starts above 0)
     TickSteps,     \* increments offered to Tick, in ticks
     NProofs,       \* proofs minted up front: 1..NProofs
-    TsChoices,     \* timestamps (seconds, relative to clock 0) a proof may carry
-    NonceIds,      \* nonce identities a proof may carry (two proofs may share one)
+    TsChoices,     \* timestamps (seconds on the same axis as the clock) a proof may carry
+    NonceIds,      \* nonce identities a proof may carry
+    ShareNonces,   \* TRUE: two proofs may carry the same nonce; FALSE: proof p carries nonce p
     KidChoices,    \* subset of {"k1","k2"}: configured key id a proof is minted under
     Caps,          \* cfg.ReplayCapacity values offered; <= 0 means "use the default"
     DefaultCap,    \* defaultReplayCapacity
@@ -60,7 +62,7 @@ CONSTANTS
     Builds,        \* subset of BuildClasses: configuration classes offered to ProofAuthenticate
     MaxDev,        \* forms offered: at most this many header fields off the canonical value
     DevVals,       \* ... and every deviating value is in this set ({"*"} = any)
-    PresentBudget, \* number of presentations per behaviour; -1 = unlimited
+    PresentBudget, \* number of presentations per behaviour; 0 = unlimited
     BurstN,        \* goroutines of a Burst; 0 disables the action
     Mode,          \* "mc" | "edges" | "tree"
     Depth          \* tree mode: emit behaviours of exactly this length
@@ -72,10 +74,10 @@ VARIABLES
     cache,         \* nonce cache: sequence of [n |-> nonce, e |-> expiresAt (ticks)]
     since,         \* ghost: since[p] = the distinct proofs the cache has admitted since p was
                    \*        last accepted, p included; {} while p was never accepted
-    left,          \* presentations left (-1 = unlimited)
+    spent,         \* presentations made (stays 0 when the budget is unlimited)
     hist           \* observation/history variable: sequence of step records
 
-vars == <<conf, proofs, now, cache, since, left, hist>>
+vars == <<conf, proofs, now, cache, since, spent, hist>>
 
 PIds == 1..NProofs
 Abs(x) == IF x < 0 THEN -x ELSE x
@@ -116,44 +118,59 @@ MacC   == {"right",        \* key configured for the claimed kid, this worker's 
 Canon == [hdr |-> "one", shape |-> "f5", ver |-> "v1", kid |-> "kown",
           tsc |-> "town", nonce |-> "n22", mac |-> "right"]
 Fields == DOMAIN Canon
-AllForms == [hdr : HdrC, shape : ShapeC, ver : VerC, kid : KidC,
-             tsc : TscC, nonce : NonceC, mac : MacC]
+Classes == [hdr |-> HdrC, shape |-> ShapeC, ver |-> VerC, kid |-> KidC,
+            tsc |-> TscC, nonce |-> NonceC, mac |-> MacC]
+\* single deviations <<field, value>> on offer: every non-canonical class, or those in DevVals
+Devs == {d \in UNION {{<<k, v>> : v \in Classes[k] \ {Canon[k]}} : k \in Fields} :
+            "*" \in DevVals \/ d[2] \in DevVals}
 DevFields(f) == {k \in Fields : f[k] # Canon[k]}
-Forms == {f \in AllForms :
-            /\ Cardinality(DevFields(f)) <= MaxDev
-            /\ \A k \in DevFields(f) : ("*" \in DevVals \/ f[k] \in DevVals)
+\* forms with at most n fields off the canonical value
+RECURSIVE FormsUpTo(_)
+FormsUpTo(n) ==
+    IF n = 0 THEN {Canon}
+    ELSE LET F == FormsUpTo(n - 1) IN
+         F \cup {[f EXCEPT ![d[1]] = d[2]] : f \in F, d \in Devs}
+\* (TLCEval: enumerate once instead of at every use)
+Forms == TLCEval({f \in FormsUpTo(MaxDev) :
             \* without a header value the other fields do not exist
-            /\ f.hdr \in {"none", "hempty"} => DevFields(f) = {"hdr"}}
+            f.hdr \in {"none", "hempty"} => DevFields(f) = {"hdr"}})
 
 BuildClasses == {"ok", "mode_off", "mode_bogus", "origin_bad", "no_secrets",
                  "kid_bad", "secret_short", "skew_zero", "skew_negative"}
 
 --------------------------------------------------------------------------
-(* verifyRequestProof + VerifyProof, in the order of the code.  Ladder is  *)
-(* the sequence of checks; the first one that fails names the exit.        *)
-Age(p) == Sec(now) - proofs[p].ts
+(* verifyRequestProof + VerifyProof, in the order of the code.             *)
+(*                                                                         *)
+(* PreLadder: the checks that depend on the header alone (and on which     *)
+(* key ids are configured), in code order; the first one that fails names  *)
+(* the exit.  Then the two-sided window on whole seconds, then the MAC,    *)
+(* then the nonce cache.                                                   *)
+PreLadder(f) == <<
+  [br |-> "Gate_NoProof",         reason |-> "no_proof",    fails |-> f.hdr \in {"none", "hempty"}],
+  [br |-> "Gate_MultipleHeaders", reason |-> "malformed",   fails |-> f.hdr \in {"two", "comma"}],
+  [br |-> "Gate_TooLong",         reason |-> "malformed",   fails |-> f.kid = "khuge"],
+  [br |-> "Gate_FieldCount",      reason |-> "malformed",   fails |-> f.shape # "f5"],
+  [br |-> "Gate_Version",         reason |-> "malformed",   fails |-> f.ver # "v1"],
+  [br |-> "Gate_KidCharset",      reason |-> "malformed",   fails |-> f.kid \in {"kcharset", "k65", "kempty", "khuge"}],
+  [br |-> "Gate_TsCharset",       reason |-> "malformed",   fails |-> f.tsc \in {"nondigit", "digits21", "tempty"}],
+  [br |-> "Gate_NonceCharset",    reason |-> "malformed",   fails |-> f.nonce # "n22"],
+  [br |-> "Gate_MacCharset",      reason |-> "malformed",   fails |-> f.mac \in {"m42", "m44", "mcharset"}],
+  [br |-> "Gate_UnknownKid",      reason |-> "unknown_kid", fails |-> f.kid = "unknown"],
+  [br |-> "Gate_TsOverflow",      reason |-> "malformed",   fails |-> f.tsc = "overflow"] >>
+NPre == 11
 
-Ladder(p, f) == <<
-  [br |-> "Gate_NoProof",         reason |-> "no_proof",      fails |-> f.hdr \in {"none", "hempty"}],
-  [br |-> "Gate_MultipleHeaders", reason |-> "malformed",     fails |-> f.hdr \in {"two", "comma"}],
-  [br |-> "Gate_TooLong",         reason |-> "malformed",     fails |-> f.kid = "khuge"],
-  [br |-> "Gate_FieldCount",      reason |-> "malformed",     fails |-> f.shape # "f5"],
-  [br |-> "Gate_Version",         reason |-> "malformed",     fails |-> f.ver # "v1"],
-  [br |-> "Gate_KidCharset",      reason |-> "malformed",     fails |-> f.kid \in {"kcharset", "k65", "kempty", "khuge"}],
-  [br |-> "Gate_TsCharset",       reason |-> "malformed",     fails |-> f.tsc \in {"nondigit", "digits21", "tempty"}],
-  [br |-> "Gate_NonceCharset",    reason |-> "malformed",     fails |-> f.nonce # "n22"],
-  [br |-> "Gate_MacCharset",      reason |-> "malformed",     fails |-> f.mac \in {"m42", "m44", "mcharset"}],
-  [br |-> "Gate_UnknownKid",      reason |-> "unknown_kid",   fails |-> f.kid = "unknown"],
-  [br |-> "Gate_TsOverflow",      reason |-> "malformed",     fails |-> f.tsc = "overflow"],
-  [br |-> "Gate_Expired",         reason |-> "expired",       fails |-> f.tsc = "town" /\ Age(p) > Skew],
-  [br |-> "Gate_NotYetValid",     reason |-> "not_yet_valid", fails |-> f.tsc = "town" /\ -Age(p) > Skew],
-  [br |-> "Gate_BadMac",          reason |-> "bad_mac",       fails |-> f.mac # "right"] >>
-
-\* index of the first failing check, 0 when the proof reaches the nonce cache
-FirstFail(p, f) ==
-    LET L == Ladder(p, f)
-        S == {i \in 1..Len(L) : L[i].fails}
+\* index of the first failing header check, 0 when the timestamp is parsed and compared
+PreFail(f) ==
+    LET L == PreLadder(f)
+        S == {i \in 1..NPre : L[i].fails}
     IN IF S = {} THEN 0 ELSE CHOOSE i \in S : \A j \in S : i <= j
+
+\* the offered forms by exit (constant: evaluated once)
+FormsAt == TLCEval([i \in 0..NPre |-> TLCEval({f \in Forms : PreFail(f) = i})])
+
+Age(p) == Sec(now) - proofs[p].ts          \* age := nowFn().Unix() - ts
+TooOld(p) == Age(p) > Skew                 \* if age > skew   -> expired
+TooNew(p) == -Age(p) > Skew                \* if -age > skew  -> not_yet_valid
 
 --------------------------------------------------------------------------
 (* nonceCache.checkAndAdd, one critical section.                           *)
@@ -197,8 +214,8 @@ Record(step) ==
 
 Budget == (Mode = "tree") => Len(hist) < Depth
 
-CanPresent == Budget /\ conf.build = "ok" /\ left # 0
-Spend == left' = IF left < 0 THEN left ELSE left - 1
+CanPresent == Budget /\ conf.build = "ok" /\ (PresentBudget = 0 \/ spent < PresentBudget)
+Spend == spent' = IF PresentBudget = 0 THEN 0 ELSE spent + 1
 
 \* ghost update when the cache admits proof p
 SinceAfterAdmit(p) ==
@@ -206,35 +223,51 @@ SinceAfterAdmit(p) ==
                     ELSE IF since[q] # {} THEN since[q] \cup {p} ELSE {}]
 
 (* Every exit of VerifyProof before the cache: nothing is remembered.      *)
-GateRefusal(br) ==
-    \E p \in PIds, f \in Forms :
-       /\ CanPresent
-       /\ FirstFail(p, f) # 0
-       /\ Ladder(p, f)[FirstFail(p, f)].br = br
-       /\ Spend
-       /\ UNCHANGED <<conf, proofs, now, cache, since>>
-       /\ Record([a |-> br, args |-> [p |-> p, f |-> f, now |-> now],
-                  exp |-> Answer(FALSE, Ladder(p, f)[FirstFail(p, f)].reason, p)])
+Refuse(p, f, br, reason) ==
+    /\ Spend
+    /\ UNCHANGED <<conf, proofs, now, cache, since>>
+    /\ Record([a |-> br, args |-> [p |-> p, f |-> f, now |-> now],
+               exp |-> Answer(FALSE, reason, p)])
 
-Gate_NoProof         == GateRefusal("Gate_NoProof")
-Gate_MultipleHeaders == GateRefusal("Gate_MultipleHeaders")
-Gate_TooLong         == GateRefusal("Gate_TooLong")
-Gate_FieldCount      == GateRefusal("Gate_FieldCount")
-Gate_Version         == GateRefusal("Gate_Version")
-Gate_KidCharset      == GateRefusal("Gate_KidCharset")
-Gate_TsCharset       == GateRefusal("Gate_TsCharset")
-Gate_NonceCharset    == GateRefusal("Gate_NonceCharset")
-Gate_MacCharset      == GateRefusal("Gate_MacCharset")
-Gate_UnknownKid      == GateRefusal("Gate_UnknownKid")
-Gate_TsOverflow      == GateRefusal("Gate_TsOverflow")
-Gate_Expired         == GateRefusal("Gate_Expired")
-Gate_NotYetValid     == GateRefusal("Gate_NotYetValid")
-Gate_BadMac          == GateRefusal("Gate_BadMac")
+PreRefusal(i) ==
+    \E p \in PIds, f \in FormsAt[i] :
+       /\ CanPresent
+       /\ Refuse(p, f, PreLadder(f)[i].br, PreLadder(f)[i].reason)
+
+Gate_NoProof         == PreRefusal(1)
+Gate_MultipleHeaders == PreRefusal(2)
+Gate_TooLong         == PreRefusal(3)
+Gate_FieldCount      == PreRefusal(4)
+Gate_Version         == PreRefusal(5)
+Gate_KidCharset      == PreRefusal(6)
+Gate_TsCharset       == PreRefusal(7)
+Gate_NonceCharset    == PreRefusal(8)
+Gate_MacCharset      == PreRefusal(9)
+Gate_UnknownKid      == PreRefusal(10)
+Gate_TsOverflow      == PreRefusal(11)
+
+Gate_Expired ==
+    \E p \in PIds, f \in FormsAt[0] :
+       /\ CanPresent /\ TooOld(p)
+       /\ Refuse(p, f, "Gate_Expired", "expired")
+
+Gate_NotYetValid ==
+    \E p \in PIds, f \in FormsAt[0] :
+       /\ CanPresent /\ ~TooOld(p) /\ TooNew(p)
+       /\ Refuse(p, f, "Gate_NotYetValid", "not_yet_valid")
+
+Gate_BadMac ==
+    \E p \in PIds, f \in FormsAt[0] :
+       /\ CanPresent /\ ~TooOld(p) /\ ~TooNew(p) /\ f.mac # "right"
+       /\ Refuse(p, f, "Gate_BadMac", "bad_mac")
+
+\* the proof verified: header well-formed, kid configured, inside the window, MAC right
+ReachesCache(p, f) == f \in FormsAt[0] /\ ~TooOld(p) /\ ~TooNew(p) /\ f.mac = "right"
 
 (* cache == nil: the MAC verified, nothing else is consulted.               *)
 NoCache_Verified ==
     \E p \in PIds, f \in Forms :
-       /\ CanPresent /\ FirstFail(p, f) = 0 /\ ~conf.cache
+       /\ CanPresent /\ ReachesCache(p, f) /\ ~conf.cache
        /\ Spend
        /\ UNCHANGED <<conf, proofs, now, cache, since>>
        /\ Record([a |-> "NoCache_Verified", args |-> [p |-> p, f |-> f, now |-> now],
@@ -243,7 +276,7 @@ NoCache_Verified ==
 (* checkAndAdd returns false: the sweep has run, nothing is added.          *)
 Cache_Replayed ==
     \E p \in PIds, f \in Forms :
-       /\ CanPresent /\ FirstFail(p, f) = 0 /\ conf.cache
+       /\ CanPresent /\ ReachesCache(p, f) /\ conf.cache
        /\ LET swept == SweepPrefix(cache, now) IN
           /\ proofs[p].nonce \in Nonces(swept)
           /\ cache' = swept
@@ -256,7 +289,7 @@ Cache_Replayed ==
 (* pushed with expiresAt = now + ttl.                                       *)
 Cache_Admitted ==
     \E p \in PIds, f \in Forms :
-       /\ CanPresent /\ FirstFail(p, f) = 0 /\ conf.cache
+       /\ CanPresent /\ ReachesCache(p, f) /\ conf.cache
        /\ LET swept == SweepPrefix(cache, now) IN
           /\ proofs[p].nonce \notin Nonces(swept)
           /\ cache' = Append(EvictWhileFull(swept, Capacity),
@@ -264,7 +297,7 @@ Cache_Admitted ==
        /\ since' = SinceAfterAdmit(p)
        /\ Spend
        /\ UNCHANGED <<conf, proofs, now>>
-       /\ Record([a |-> "Cache_Admitted", args |-> [p |-> p, f |-> Canon, now |-> now],
+       /\ Record([a |-> "Cache_Admitted", args |-> [p |-> p, f |-> f, now |-> now],
                   exp |-> Answer(TRUE, "ok", p)])
 
 (* BurstN goroutines present the canonical form of p at the same instant    *)
@@ -273,7 +306,7 @@ Cache_Admitted ==
 Burst ==
     \E p \in PIds :
        /\ CanPresent /\ BurstN > 0 /\ conf.mode = "require"
-       /\ LET ok    == FirstFail(p, Canon) = 0
+       /\ LET ok    == ReachesCache(p, Canon)
               swept == SweepPrefix(cache, now)
               fresh == proofs[p].nonce \notin Nonces(swept)
               n     == IF ~ok THEN 0 ELSE IF ~conf.cache THEN BurstN
@@ -296,13 +329,13 @@ Tick ==
        /\ Budget /\ conf.build = "ok"
        /\ now + d <= MaxNow
        /\ now' = now + d
-       /\ UNCHANGED <<conf, proofs, cache, since, left>>
+       /\ UNCHANGED <<conf, proofs, cache, since, spent>>
        /\ Record([a |-> "Tick", args |-> [d |-> d, now |-> now + d], exp |-> [now |-> now + d]])
 
 (* ProofAuthenticate refuses to build a gate from a bad configuration.      *)
 Build_Refused ==
-    /\ Budget /\ conf.build # "ok" /\ left # 0
-    /\ left' = 0
+    /\ Budget /\ conf.build # "ok" /\ spent = 0
+    /\ spent' = 1
     /\ UNCHANGED <<conf, proofs, now, cache, since>>
     /\ Record([a |-> "Build_Refused", args |-> [build |-> conf.build], exp |-> [built |-> FALSE]])
 
@@ -316,13 +349,14 @@ Init ==
           \/ proofs[p].ts = proofs[p + 1].ts /\ proofs[p].nonce <= proofs[p + 1].nonce
     /\ \A p \in PIds : \A m \in NonceIds :
           m < proofs[p].nonce => \E q \in PIds : q < p /\ proofs[q].nonce = m
-    /\ now = 0
+    /\ ~ShareNonces => \A p \in PIds : proofs[p].nonce = p
+    /\ now = Start
     /\ cache = <<>>
     /\ since = [p \in PIds |-> {}]
-    /\ left = PresentBudget
+    /\ spent = 0
     /\ hist = << [a |-> "Init",
-                  args |-> [Skew |-> Skew, Sub |-> Sub, conf |-> conf, proofs |-> proofs,
-                            BurstN |-> BurstN, DefaultCap |-> DefaultCap],
+                  args |-> [Skew |-> Skew, Sub |-> Sub, now |-> Start, conf |-> conf,
+                            proofs |-> proofs, BurstN |-> BurstN, DefaultCap |-> DefaultCap],
                   exp |-> [built |-> conf.build = "ok"]] >>
 
 Next ==
@@ -338,7 +372,7 @@ Spec == Init /\ [][Next]_vars
 --------------------------------------------------------------------------
 (* Properties of the viewed state (INVARIANTs).                             *)
 TypeOK ==
-    /\ now \in 0..MaxNow
+    /\ now \in Start..MaxNow
     /\ \A i \in 1..Len(cache) : cache[i].n \in NonceIds
     /\ \A p \in PIds : since[p] \subseteq PIds
 
@@ -421,5 +455,5 @@ GateComplete ==
                   proofs[q].nonce = proofs[Last.args.p].nonce => since[q] = {}))
            => Last.exp.verified /\ Last.exp.pass ]_vars
 
-View == <<conf, proofs, now, cache, since, left>>
+View == <<conf, proofs, now, cache, since, spent>>
 =============================================================================
